@@ -91,6 +91,17 @@ int main(int argc, char ** argv) {
                 o << log.size();
                 for (const auto & [n, v, f, w] : log) { o << n; outVec(o, v); o << f; if (f) outVec(o, w); }
             }
+        } else if (kind == "fvn" || kind == "fvr") {   // fvn: newVs alphas | fvr: range -> n, then per vertex: point value
+            PointSurface vs;
+            if (kind == "fvn") {
+                auto news = readVecs(c, d); auto alphas = readVecs(c, d);
+                vs = findVerticesNaive(news.begin(), news.end(), alphas.begin(), alphas.end());
+            } else {
+                auto range = readVecs(c, d);
+                vs = findVerticesNaive(range);
+            }
+            o << vs.first.size() << d;
+            for (size_t i = 0; i < vs.first.size(); ++i) { outVec(o, vs.first[i]); o << vs.second[i]; }
         } else if (kind == "saw" || kind == "lpi") {   // ubQ points vals query -> value weights
             Matrix2D ubQ = readMat(c);
             PointSurface ubV;
